@@ -366,7 +366,9 @@ PROPS["C17"] = {
             "upstreams, pass-host-header off) x raw-path proxying on/off x 37 paths (percent-encoded slashes, dots, spaces, plus signs, "
             "semicolons, UTF-8 raw and encoded) x queries x methods GET/POST/PUT/DELETE with bodies up to 64 KiB (1 MiB in thorough) and "
             "repeated / unusual headers, as an authenticated session; the upstream reached (or redirect / not found) is compared with the "
-            "model run on the order the sort actually produced; non-trivial = all",
+            "model run on the order the sort actually produced, and the raw query each upstream received with the model's "
+            "forwarded_query; plus the same grid with a non-websocket Upgrade request header, and a wire-level sub-driver (the proxy behind "
+            "a real HTTP server) with upstreams that send 103 Early Hints once or twice before final statuses 200..503; non-trivial = all",
     "assumptions": ["gorilla/mux tries routes in registration order (first match wins) and Go's regexp are modelled; the regex oracle is a "
                     "table computed with the standard library",
                     "byte-faithful streaming of bodies and relay of the upstream response are httputil.ReverseProxy behaviour: exercised "
@@ -375,6 +377,9 @@ PROPS["C17"] = {
     "level_text": "c17_route (for EVERY ordering the unstable sort may produce - any permutation satisfying the comparator - the first matching "
                   "route is a matching upstream of greatest key: longest matching rewrite rule, else longest matching plain path), "
                   "c17_comparator, c17_no_match, c17_plain_unique are proved on the Gallina model of sortByPathLongest and the route table; "
+                  "c17_query_verbatim / c17_query_additions / c17_query_no_additions / c17_rewrite_refused_iff / "
+                  "c17_rewritten_path_has_no_query (the query arrives exactly as sent without a rule, and verbatim followed only by the "
+                  "rule's additions with one; refusal only when the rule's own query cannot be parsed) on the model of rewritePath; "
                   "routing is compared with the real proxy and method / request-target / body / headers / response relay are checked by "
                   "oracles on every run.",
     "level_note": "_partial: the director's byte-for-byte request-target (URL.Opaque = RequestURI) and response relay are checked by oracles only.",
